@@ -153,7 +153,7 @@ INDENT_PROGS = ['def f():\n    b\'\'\'x\n    y\'\'\'\n    return 1\n', 'class K:
                 'def g():\n    \'\'\'doc\n    more\'\'\'\n    x = \'\'\'a\n    b\'\'\'\n    f\'\'\'c{x}\n    d\'\'\'\n    rb\'\'\'e\n    f\'\'\'\n    return x\n']
 PRIM_PROGS = ['x = 1.0.real\n', 'x = [1for y in z]\n', 'x = 1if y else 2\n', 'x = "a".upper()\n', 'x = not"a"\n', 'def f():\n    return"a" + b\n', 'x = "a"if"b"else"c"\n',
               'x = 1.0 ** 2\n', 'x = -1\n', 'x = a[1:2]\n', 'x = f(1, k=2)\n', "x = '''m\nl'''.strip()\n", 'x = 1 .real + 2j\n', 'x = "é"if"b"else"c"  # ü\n', 'x = (1)\n']
-PRIM_VALUES = [1, 5, True, None, 2.5, -0.0, 0.0, -1, 1j, 's', b'b', ..., 10 ** 30, 1e100]
+PRIM_VALUES = [1, 5, True, None, 2.5, -0.0, 0.0, -1, 1j, 's', b'b', ..., 10 ** 30, 1e100, complex(1, 2), float('inf'), float('nan'), complex(0, float('inf')), complex(-0.0, 1)]
 TARGET_NEW = ['n', '(n)', 'n.m', 'n[0]', '(n.m)']
 
 
